@@ -525,6 +525,12 @@ let () =
             | "H" ->
                 d := Db.empty_db; real := Db.empty_db; s := []; pending := None; obs_r := None; obs_d := None;
                 Printf.printf "H %s\n" (Str_.concat " " !toks)
+            | "S" ->
+                (* adopt a given state (a dump of the implementation): "S <now> <dump>" *)
+                let now = z_of_string (next ()) in
+                let st = parse_dump () in
+                d := st; real := st; s := Abs.abs now st; obs_r := None; obs_d := None;
+                Printf.printf "N %s\n" (if Inv.inv_ok st then "ok" else "inv")
             | "r" -> obs_r := Some (p_outs ())
             | "d" -> obs_d := Some (parse_dump ())
             | "O" ->
